@@ -11,7 +11,17 @@ use vmon::rng::Rng;
 
 /// F13: enum sources with derives in any position, path-qualified derives, several derive
 /// attributes, cfg_attr, repr, doc comments, attributes on variants and fields, lifetimes.
+/// Conditional compilation with predicates that are trivially true / false: what the derive sees is the enum after rustc
+/// has evaluated them (cfg_attr(all(), ..) expanded, cfg(any()) variants gone).
+const CFG_SPECIMENS: &[&str] = &[
+    "#[cfg_attr(all(), derive(Logos), logos(skip \" \"))]\n#[derive(Debug, PartialEq)]\nenum TokCfgA {\n    #[cfg_attr(all(), token(\"a\"))]\n    A,\n    #[token(\"b\")]\n    B,\n}\n",
+    "#[derive(Logos, Debug, PartialEq)]\nenum TokCfgB {\n    #[token(\"a\")]\n    A,\n    #[cfg(any())]\n    #[token(\"d\")]\n    D,\n    #[regex(\"[0-9]+\")]\n    N,\n}\n",
+];
+
 pub fn gen_source(rng: &mut Rng, i: usize) -> String {
+    if i == 7 || i == 11 {
+        return CFG_SPECIMENS[(i == 11) as usize].to_string();
+    }
     // the derive may be reached through any path (re-exports, renamed dependencies, `#[logos(crate = ..)]` setups)
     let logos_forms = ["Logos", "logos::Logos", "::logos::Logos", "Logos", "logos::Logos", "logos_crate::Logos", "my::deps::logos::Logos", "::some::path::_logos::Logos", "crate::reexports::Logos"];
     let others = ["Debug", "Clone", "PartialEq", "serde::Serialize", "::core::fmt::Debug", "core::hash::Hash", "Eq", "std::cmp::PartialOrd", "Copy", "::serde::Deserialize"];
@@ -220,6 +230,61 @@ fn canon_enum(mut item: syn::ItemEnum, strip: bool) -> Result<Vec<String>, Strin
     Ok(flat_of(item.to_token_stream()))
 }
 
+/// `#[cfg_attr(all(), a, b)]` -> `#[a] #[b]`, `#[cfg_attr(any(), ..)]` -> nothing; returns whether anything changed.
+fn expand_cfg_attrs(attrs: &mut Vec<syn::Attribute>) -> bool {
+    let mut changed = false;
+    let mut out = vec![];
+    for a in attrs.drain(..) {
+        if a.path().is_ident("cfg_attr") {
+            if let syn::Meta::List(list) = &a.meta {
+                if let Ok(metas) = list.parse_args_with(Punctuated::<syn::Meta, syn::Token![,]>::parse_terminated) {
+                    let mut it = metas.into_iter();
+                    let pred = it.next().map(|m| m.to_token_stream().to_string().replace(' ', ""));
+                    match pred.as_deref() {
+                        Some("all()") => {
+                            for m in it {
+                                let na: syn::Attribute = syn::parse_quote!(#[#m]);
+                                out.push(na);
+                            }
+                            changed = true;
+                            continue;
+                        }
+                        Some("any()") => {
+                            changed = true;
+                            continue;
+                        }
+                        _ => {}
+                    }
+                }
+            }
+        }
+        out.push(a);
+    }
+    *attrs = out;
+    changed
+}
+
+fn cfg_false(attrs: &[syn::Attribute]) -> bool {
+    attrs.iter().any(|a| a.path().is_ident("cfg") && matches!(&a.meta, syn::Meta::List(l) if l.tokens.to_string().replace(' ', "") == "any()"))
+}
+
+/// The enum as the derive macro receives it: trivially true / false `cfg_attr` and `cfg` evaluated.
+/// Returns None when nothing had to be evaluated.
+fn as_rustc_hands_it_to_the_derive(item: &syn::ItemEnum) -> Option<syn::ItemEnum> {
+    let mut e = item.clone();
+    let mut changed = expand_cfg_attrs(&mut e.attrs);
+    let before = e.variants.len();
+    e.variants = e.variants.into_iter().filter(|v| !cfg_false(&v.attrs)).collect();
+    changed |= e.variants.len() != before;
+    for v in e.variants.iter_mut() {
+        changed |= expand_cfg_attrs(&mut v.attrs);
+        for f in v.fields.iter_mut() {
+            changed |= expand_cfg_attrs(&mut f.attrs);
+        }
+    }
+    if changed { Some(e) } else { None }
+}
+
 /// Check one (input, output) pair. Returns the list of problems (empty = fine).
 pub fn oracle(input: &str, output: &str, formatted: bool) -> Vec<String> {
     let mut problems = vec![];
@@ -240,10 +305,14 @@ pub fn oracle(input: &str, output: &str, formatted: bool) -> Vec<String> {
         // rustfmt may add trailing commas etc.; the orchestrator compares with rustfmt(plain output)
         return problems;
     }
+    // conditional compilation around logos' own attributes: the derive sees the evaluated enum; what exactly the *stripped*
+    // enum should look like is not something the statement settles, so only the implementation half is judged there
+    let evaluated = as_rustc_hands_it_to_the_derive(&in_enum);
     let expected = match canon_enum(in_enum, true) {
         Ok(s) => s,
         Err(e) => return vec![format!("HARNESS: {e}")],
     };
+    if evaluated.is_none() {
     match &out_file.items[0] {
         syn::Item::Enum(e) => match canon_enum(e.clone(), false) {
             Ok(actual) => {
@@ -262,8 +331,12 @@ pub fn oracle(input: &str, output: &str, formatted: bool) -> Vec<String> {
         },
         _ => problems.push("first output item is not an enum".into()),
     }
+    }
     // the rest must be what the derive generates for the input
-    let gen = logos_codegen::generate(TokenStream::from_str(input).unwrap()).to_string();
+    let gen = match &evaluated {
+        Some(e) => logos_codegen::generate(e.to_token_stream()).to_string(),
+        None => logos_codegen::generate(TokenStream::from_str(input).unwrap()).to_string(),
+    };
     let rest: TokenStream = out_file.items[1..].iter().map(|i| i.to_token_stream()).collect();
     let (fa, fb) = (flat_of(rest), flat_of(TokenStream::from_str(&gen).unwrap()));
     if fa != fb {
